@@ -252,7 +252,7 @@ def pre_one(kind: int, n: int, m: int, pos0: int, b0: int, chunk: int, rscript: 
             return False
     if not (pos0 + b0 <= eofpos <= len(DATA) and 0 <= cause <= 1):
         return False
-    return in_shard(kind + 7 * (pos0 - 1) + 14 * b0)
+    return in_shard(kind + 7 * b0 + 21 * (pos0 - 1))
 
 
 _R_UNITS = ["iostream.BaseIOStream.read_bytes", "iostream.BaseIOStream.read_into",
@@ -275,9 +275,9 @@ _R_STUBS = ["FakeFdStream scripted kernel (harness/_iostream_rig.py): each read_
 
 @harness(
     pre=pre_one,
-    quick=dict(NB=3, MB=3, J=2, P0=2, B0=1, C=3, K=2, A=3, timeout=100, reach_timeout=60),
+    quick=dict(NB=3, MB=3, J=2, P0=1, B0=1, C=3, K=2, A=3, timeout=100, reach_timeout=60),
     thorough=dict(NB=4, MB=4, J=2, P0=2, B0=2, C=3, K=3, A=3, timeout=1500, reach_timeout=120),
-    nshards=dict(quick=28, thorough=42),
+    nshards=dict(quick=14, thorough=42),
     reach=["unsatisfiable_closed", "within_max_bytes", "partial_short", "failed_at_eof", "left_pending",
            "until_close_done"],
     units=_R_UNITS, stubs=_R_STUBS,
